@@ -197,6 +197,23 @@ func finish(prop, tier, verifDir string, start time.Time, r *propResult) int {
 			nUndec++
 		}
 	}
+	// reference instances: every obligation key confirmed on the unchanged tree (baseline/<id>.keys)
+	// must still be produced; a vanished key means a rule lost the construct it was attached to
+	var vanished []string
+	if base, err := os.ReadFile(filepath.Join(verifDir, "baseline", prop+".keys")); err == nil {
+		have := map[string]bool{}
+		for _, o := range r.obs {
+			if o.Config == "" || o.Config == "linux/amd64" {
+				have[o.Key] = true
+			}
+		}
+		for _, k := range strings.Split(string(base), "\n") {
+			k = strings.TrimSpace(k)
+			if k != "" && !have[k] {
+				vanished = append(vanished, k)
+			}
+		}
+	}
 	vacuous := nUndec == 0 && nBad == 0 && nOK+nKnown < r.minObs
 	exit := 0
 	vdir := filepath.Join(verifDir, "evidence", "violations")
@@ -221,8 +238,11 @@ func finish(prop, tier, verifDir string, start time.Time, r *propResult) int {
 				fmt.Printf("    path: %s\n", s)
 			}
 		}
-	} else if nUndec > 0 || vacuous {
+	} else if nUndec > 0 || vacuous || len(vanished) > 0 {
 		exit = 2
+		for _, k := range vanished {
+			fmt.Printf("UNDECIDED property=%s obligation %s, confirmed on the reference tree, is no longer produced: the construct the rule was attached to is gone (cannot vouch for it)\n", prop, k)
+		}
 		for _, o := range r.obs {
 			if o.Status == "undecided" {
 				fmt.Printf("UNDECIDED property=%s key=%s %s\n", prop, o.Key, o.Detail)
@@ -254,6 +274,7 @@ func finish(prop, tier, verifDir string, start time.Time, r *propResult) int {
 		"undecided":               nUndec,
 		"distinct_obligation_keys": len(keys),
 		"min_obligations_expected": r.minObs,
+		"reference_keys_vanished":  vanished,
 		"configurations":          r.configs,
 		"functions_with_bodies":   r.funcs,
 		"ssa_blocks":              r.blocks,
